@@ -12,8 +12,10 @@ func kiField(t types.Type, i int) KeyInfo {
 	_, st := namedStruct(t)
 	return KeyInfo{Key: fieldKeyName(t, st, i), Dims: 1, CellT: st.Field(i).Type()}
 }
-func kiElem(elem types.Type) KeyInfo { return KeyInfo{Key: "E!" + shortType(elem), Dims: 2, CellT: elem} }
-func kiBox(t types.Type) KeyInfo     { return KeyInfo{Key: "B!" + shortType(t), Dims: 1, CellT: t} }
+func kiElem(elem types.Type) KeyInfo {
+	return KeyInfo{Key: "E!" + shortType(elem), Dims: 2, CellT: elem}
+}
+func kiBox(t types.Type) KeyInfo { return KeyInfo{Key: "B!" + shortType(t), Dims: 1, CellT: t} }
 func kiGlobal(name string, t types.Type) KeyInfo {
 	return KeyInfo{Key: "G!" + sanitize(name), Dims: 0, CellT: t}
 }
